@@ -260,6 +260,10 @@ type c20Case struct {
 	hist    []c20Write
 	current *c20Stream
 	pendingWatch bool
+	lease       clientv3.Lease
+	leases      []clientv3.LeaseID
+	multi       bool // some revision changed several lease keys
+	multiRevoke bool // a lease holding >= 2 keys was revoked
 }
 
 var errC20Inconclusive = fmt.Errorf("vf c20: inconclusive")
@@ -277,6 +281,76 @@ func (c *c20Case) write(phase string, e c20Entry, val string) error {
 		return fmt.Errorf("%w: admin write: %v", errC20Inconclusive, err)
 	}
 	c.hist = append(c.hist, c20Write{Phase: phase, Key: e.Name, Val: val})
+	return nil
+}
+
+// c20Op is one step of the history. Kind "one": a single put/delete. "txn": 2-3 puts/deletes of
+// distinct keys in ONE etcd revision (multi-op transaction). "lease-put": 2-3 keys put in one
+// revision and attached to a fresh etcd lease (a broker owning several partitions/groups).
+// "revoke": the oldest such lease is revoked - etcd deletes all its keys in ONE revision
+// (session expiry / ReleaseAll of a broker that owns several leases).
+type c20Op struct {
+	Kind  string
+	Items [][2]int // (universe index, value index; value 0 = delete)
+}
+
+func (c *c20Case) applyOp(phase string, op c20Op, brokers []string) error {
+	ctx, cancel := context.WithTimeout(context.Background(), 30*time.Second)
+	defer cancel()
+	switch op.Kind {
+	case "one":
+		return c.write(phase, c.f.universe[op.Items[0][0]], brokers[op.Items[0][1]])
+	case "txn", "lease-put":
+		var lease clientv3.LeaseID
+		if op.Kind == "lease-put" {
+			g, err := c.lease.Grant(ctx, 600)
+			if err != nil {
+				return fmt.Errorf("%w: grant: %v", errC20Inconclusive, err)
+			}
+			lease = g.ID
+			c.leases = append(c.leases, lease)
+		}
+		var ops []clientv3.Op
+		for _, it := range op.Items {
+			e, val := c.f.universe[it[0]], brokers[it[1]]
+			switch {
+			case op.Kind == "lease-put":
+				if val == "" {
+					val = "1"
+				}
+				ops = append(ops, clientv3.OpPut(e.EtcdKey, val, clientv3.WithLease(lease)))
+				c.hist = append(c.hist, c20Write{Phase: phase + "/same-rev(lease)", Key: e.Name, Val: val})
+			case val == "":
+				ops = append(ops, clientv3.OpDelete(e.EtcdKey))
+				c.hist = append(c.hist, c20Write{Phase: phase + "/same-rev", Key: e.Name, Val: val})
+			default:
+				ops = append(ops, clientv3.OpPut(e.EtcdKey, val))
+				c.hist = append(c.hist, c20Write{Phase: phase + "/same-rev", Key: e.Name, Val: val})
+			}
+		}
+		if _, err := c.admin.Txn(ctx).Then(ops...).Commit(); err != nil {
+			return fmt.Errorf("%w: admin txn: %v", errC20Inconclusive, err)
+		}
+		c.multi = true
+	case "revoke":
+		if len(c.leases) == 0 {
+			return nil
+		}
+		id := c.leases[0]
+		c.leases = c.leases[1:]
+		// how many keys does it still hold?
+		ttl, err := c.lease.TimeToLive(ctx, id, clientv3.WithAttachedKeys())
+		if err != nil {
+			return fmt.Errorf("%w: ttl: %v", errC20Inconclusive, err)
+		}
+		if _, err := c.lease.Revoke(ctx, id); err != nil {
+			return fmt.Errorf("%w: revoke: %v", errC20Inconclusive, err)
+		}
+		c.hist = append(c.hist, c20Write{Phase: phase + "/lease-revoked", Key: fmt.Sprintf("%d keys", len(ttl.Keys)), Val: ""})
+		if len(ttl.Keys) >= 2 {
+			c.multiRevoke = true
+		}
+	}
 	return nil
 }
 
@@ -364,10 +438,13 @@ func (e *c20Env) newCase(f c20Flavour) (*c20Case, func()) {
 	cli.KV = &c20KV{KV: namespace.NewKV(e.base.KV, pfx), ctl: ctl}
 	cli.Watcher = &c20Watcher{Watcher: namespace.NewWatcher(e.base.Watcher, pfx), ctl: ctl}
 	cli.Lease = e.base.Lease
-	c := &c20Case{f: f, admin: namespace.NewKV(e.admin.KV, pfx), cli: cli, ctl: ctl}
+	c := &c20Case{f: f, admin: namespace.NewKV(e.admin.KV, pfx), cli: cli, ctl: ctl, lease: e.admin.Lease}
 	return c, func() {
 		cancel()
 		dctx, dcancel := context.WithTimeout(context.Background(), 10*time.Second)
+		for _, id := range c.leases {
+			_, _ = c.lease.Revoke(dctx, id)
+		}
 		_, _ = c.admin.Delete(dctx, "/", clientv3.WithPrefix())
 		dcancel()
 	}
@@ -375,24 +452,24 @@ func (e *c20Env) newCase(f c20Flavour) (*c20Case, func()) {
 
 // c20Plan is the generated history. Each phase is a list of (entry index, value) writes.
 type c20Plan struct {
-	Pre      [][2]int // before the router's initial load
-	Gap1     [][2]int // between initial load and watch start
-	Live1    [][2]int // watch established
+	Pre      []c20Op // before the router's initial load
+	Gap1     []c20Op // between initial load and watch start
+	Live1    []c20Op // watch established
 	Cut      bool
-	Outage   [][2]int // after the cut, before the reload
-	Gap2     [][2]int // between reload and watch restart
-	Live2    [][2]int
+	Outage   []c20Op // after the cut, before the reload
+	Gap2     []c20Op // between reload and watch restart
+	Live2    []c20Op
 	SecondCut bool
-	Outage2  [][2]int
-	Live3    [][2]int
+	Outage2  []c20Op
+	Live3    []c20Op
 }
 
 // run executes a plan against the real router and returns a violation text ("" if none).
 func (c *c20Case) run(p c20Plan) (string, error) {
 	brokers := []string{"", "0", "1", "2"}
-	apply := func(phase string, ws [][2]int) error {
-		for _, w := range ws {
-			if err := c.write(phase, c.f.universe[w[0]], brokers[w[1]]); err != nil {
+	apply := func(phase string, ops []c20Op) error {
+		for _, op := range ops {
+			if err := c.applyOp(phase, op, brokers); err != nil {
 				return err
 			}
 		}
@@ -439,7 +516,7 @@ func (c *c20Case) run(p c20Plan) (string, error) {
 	defer r.stop()
 	// reconnect: let reads through (writes of the "outage" phase were already applied) until
 	// the router parks at Watch; apply the gap writes there; let the watch start; live writes.
-	reconnect := func(gap, live [][2]int, gapName, liveName string) error {
+	reconnect := func(gap, live []c20Op, gapName, liveName string) error {
 		for !c.pendingWatch {
 			got, err := c.waitArrive()
 			if err != nil {
@@ -468,7 +545,7 @@ func (c *c20Case) run(p c20Plan) (string, error) {
 	if err := reconnect(p.Gap1, p.Live1, "gap", "live"); err != nil {
 		return "", err
 	}
-	cut := func(outage, gap, live [][2]int, n string) error {
+	cut := func(outage, gap, live []c20Op, n string) error {
 		close(c.current.cut)
 		if err := apply("outage"+n, outage); err != nil {
 			return err
@@ -550,17 +627,42 @@ func (c *c20Case) run(p c20Plan) (string, error) {
 
 // ---------------------------------------------------------------- generator
 
-func c20Writes(rt *rapid.T, n int, label string, max int) [][2]int {
+func c20Writes(rt *rapid.T, n int, label string, max int) []c20Op {
 	k := rapid.IntRange(0, max).Draw(rt, label+"N")
-	out := make([][2]int, 0, k)
+	out := make([]c20Op, 0, k)
 	for i := 0; i < k; i++ {
-		e := rapid.IntRange(0, n-1).Draw(rt, label+"Key")
-		// value 0 = delete (1 in 4), else broker id
-		v := rapid.IntRange(0, 3).Draw(rt, label+"Val")
-		out = append(out, [2]int{e, v})
+		kind := rapid.SampledFrom([]string{"one", "one", "one", "one", "txn", "txn", "lease-put", "lease-put", "revoke", "revoke"}).Draw(rt, label+"Kind")
+		op := c20Op{Kind: kind}
+		items := 1
+		if kind == "txn" || kind == "lease-put" {
+			items = rapid.IntRange(2, 3).Draw(rt, label+"Items")
+		}
+		if kind == "revoke" {
+			items = 0
+		}
+		used := map[int]bool{}
+		for j := 0; j < items; j++ {
+			e := rapid.IntRange(0, n-1).Draw(rt, label+"Key")
+			if used[e] {
+				continue // one revision cannot touch a key twice
+			}
+			used[e] = true
+			// value 0 = delete (1 in 4), else broker id
+			v := rapid.IntRange(0, 3).Draw(rt, label+"Val")
+			op.Items = append(op.Items, [2]int{e, v})
+		}
+		if items > 0 && len(op.Items) == 0 {
+			continue
+		}
+		if len(op.Items) == 1 && kind == "txn" {
+			op.Kind = "one"
+		}
+		out = append(out, op)
 	}
 	return out
 }
+
+func c20One(key, val int) c20Op { return c20Op{Kind: "one", Items: [][2]int{{key, val}}} }
 
 func c20Property(t *testing.T, leg string, f c20Flavour) {
 	st := vfkit.NewStats("C20", leg)
@@ -607,11 +709,18 @@ func c20Property(t *testing.T, leg string, f c20Flavour) {
 		// statistics
 		touchedLoaded := false
 		loaded := map[int]bool{}
-		for _, w := range p.Pre {
-			loaded[w[0]] = true
+		for _, op := range p.Pre {
+			for _, w := range op.Items {
+				loaded[w[0]] = true
+			}
 		}
-		for _, w := range p.Live1 {
-			if loaded[w[0]] {
+		for _, op := range p.Live1 {
+			for _, w := range op.Items {
+				if loaded[w[0]] {
+					touchedLoaded = true
+				}
+			}
+			if op.Kind == "revoke" {
 				touchedLoaded = true
 			}
 		}
@@ -632,6 +741,14 @@ func c20Property(t *testing.T, leg string, f c20Flavour) {
 		}
 		if touchedLoaded {
 			st.Class("watched-change-of-a-loaded-route")
+			nt = true
+		}
+		if c.multi {
+			st.Class("several-lease-keys-changed-in-one-revision")
+			nt = true
+		}
+		if c.multiRevoke {
+			st.Class("lease-holding-several-keys-revoked")
 			nt = true
 		}
 		for _, w := range c.hist {
@@ -665,9 +782,9 @@ func TestVF_C20_Witness(t *testing.T) {
 		for _, afterCut := range []bool{false, true} {
 			st.Eval()
 			// owner "0" loaded, changes to "1" in the gap between the load and the watch; nothing else happens
-			p := c20Plan{Pre: [][2]int{{0, 1}}, Gap1: [][2]int{{0, 2}}}
+			p := c20Plan{Pre: []c20Op{c20One(0, 1)}, Gap1: []c20Op{c20One(0, 2)}}
 			if afterCut {
-				p = c20Plan{Pre: [][2]int{{0, 1}}, Cut: true, Gap2: [][2]int{{0, 0}, {1, 3}}}
+				p = c20Plan{Pre: []c20Op{c20One(0, 1)}, Cut: true, Gap2: []c20Op{c20One(0, 0), c20One(1, 3)}}
 			}
 			c, done := env.newCase(f)
 			v, err := c.run(p)
